@@ -49,6 +49,11 @@ def prepare():
             shutil.copy(src, os.path.join(rsrc, mod, 'verif_harness.rs'))
             with open(os.path.join(rsrc, mod, 'mod.rs'), 'a') as fh:
                 fh.write('\n#[cfg(kani)]\nmod verif_harness;\n')
+    nat = os.path.join(VERIF, 'kani', 'harness', 'mut_native.rs')
+    if os.path.exists(nat):
+        shutil.copy(nat, os.path.join(rsrc, 'mutators', 'verif_native.rs'))
+        with open(os.path.join(rsrc, 'mutators', 'mod.rs'), 'a') as fh:
+            fh.write('\n#[cfg(all(test, not(kani)))]\nmod verif_native;\n')
     gen = os.path.join(VERIF, 'build', 'gen', 'ref_tables_kani.rs')
     if os.path.exists(gen):
         shutil.copy(gen, os.path.join(rsrc, 'generator', 'ref_tables_kani.rs'))
@@ -258,3 +263,18 @@ def playback(name, crate_hash, timeout=900):
     res['native_output'] = out2[-2500:]
     res['native_reproduced'] = bool(re.search(r'test result: FAILED', out2)) and 'error[' not in out2
     return res
+
+
+def native_mutator_standin(timeout=1500):
+    """BOUNDED stand-in for C15/C16: run kani/harness/mut_native.rs natively (plain `cargo test`, real
+    code, no CBMC).  Returns (violations: list of dict(tag, text), output_tail, cmd)."""
+    prepare()
+    env = dict(os.environ, CARGO_NET_OFFLINE='true', CARGO_TARGET_DIR=os.path.join(KROOT, 'native-target'))
+    cmd = ['cargo', 'test', '--offline', '--lib', 'verif_native', '--', '--nocapture', '--test-threads', '2']
+    out = run_limited(cmd, env, timeout)
+    if 'test result:' not in out:
+        raise Undecided('native mutator stand-in did not run: ' + out[-1500:])
+    vio = []
+    for mm in re.finditer(r'^NATIVE-VIOLATION \[(C\d+)\] ([^\n]*)$', out, re.M):
+        vio.append(dict(tag=mm.group(1), text=mm.group(2)))
+    return vio, out[-1500:], 'cd %s && CARGO_TARGET_DIR=%s %s' % (CRATE, os.path.join(KROOT, 'native-target'), ' '.join(cmd))
